@@ -38,9 +38,9 @@ ASSUMPTIONS = [
 ]
 
 PROFILE = gf.make_profile(
-    kinds={"do": 16, "assign_elem": 14, "assign_scalar": 8, "if": 3,
+    kinds={"do": 16, "assign_elem": 12, "assign_scalar": 8, "if": 3,
            "if1": 3, "where": 0, "select": 0, "call": 1, "dowhile": 0,
-           "exitcycle": 0, "assign_section": 1},
+           "exitcycle": 0, "assign_section": 1, "dep_pair": 8},
     dep_index=70, perfect_nest=25, helpers=(0, 1), nstmts=(2, 5),
     array_intrinsics=False, functions=False)
 PROFILE_NAMES = gf.make_profile(
